@@ -224,6 +224,7 @@ twin('C05', 'pyiga/hierarchical.py', 'pyiga.hierarchical.HSpace.virtual_hierarch
             prolongators = thb""", 'the repaired THB prolongators (conjugation with the lower truncations): R05.8 met, no finding')
 brk('C18', 'R18.10', 'pyiga/lowrank.py', 'pyiga.lowrank.aca_3d', r"E_mat\[tuple\(I\[1:\]\)\] = 0", 'E_mat[I[1:]] = 0', 'list used as a multi-index')
 twin('C18', 'pyiga/lowrank.py', 'pyiga.lowrank.aca_3d', r"E_mat\[tuple\(I\[1:\]\)\] = 0", 'E_mat[I[1], I[2]] = 0', 'explicit pair of indices')
+brk('C08', 'R08.4', 'pyiga/vform.py', 'pyiga.vform.VForm.dependency_analysis', r"\(isinstance\(v\.src, InputField\) and v\.src\.updatable\)\n\s*or isinstance\(v\.src, Parameter\)", '(isinstance(v.src, InputField) and v.src.updatable)', 'descendants of parameters precomputed again')
 # ---- rules added after the first wave of independently seeded changes (seeded/S01..S08): variants of those changes, and
 #      behaviour-preserving rewrites of the same constructs
 brk('C03', 'R03.7', 'pyiga/_hdiscr.py', 'pyiga._hdiscr.HDiscretization.assemble_matrix', r"(\n(\s*)for lv in range\(max\(0, k - hs\.disparity\), k\):)", r"\1\n\2    if not neighbors[k][lv]:\n\2        continue", 'coarser level skipped inside the accumulation loop')
